@@ -2,7 +2,7 @@
 Require Extraction.
 Require Import ExtrOcamlBasic.
 From Coq Require Import ZArith List Bool.
-From V Require Import rset.RSetModel rset.RSetSpec rset.RSetHist.
+From V Require Import rset.RSetModel rset.RSetSpec rset.RSetHist rset.RSetLit rset.RSetHeapq.
 Import ListNotations.
 Open Scope Z_scope.
 
@@ -68,9 +68,12 @@ Definition dispatch (n : Z) (args : list Z) : list Z :=
          | TTypeError => [2]
          | TNoFuel => [9]
          end
+  | 4 => let '((rr, rd, exr, exd), _) := dec_set args in enc_iter (rset_iter_l (heap_sel_l false) rr rd exr exd)
+  | 5 => let '((rr, rd, exr, exd), _) := dec_set args in enc_iter (rset_iter heap_py rr rd exr exd)
   | 10 => hist_dispatch heap_first args
   | 11 => hist_dispatch heap_last args
   | 12 => hist_spec_dispatch args
+  | 13 => hist_dispatch heap_py args
   | _ => [-1]
   end.
 
